@@ -45,6 +45,9 @@ pub enum Attack {
     ShiftSwap,
     /// bound label removed together with nothing else (commitment keeps its shifted part)
     LabelDrop,
+    /// a polynomial committed WITHOUT a bound (its degree may exceed d) is presented with label bound d
+    /// and the identity element as shifted commitment
+    ShiftIdentity(usize),
 }
 
 pub fn verifier_side<S: Sch<P = UP>>(cfg: &Cfg, attack: Attack, negate: bool) -> Verdict
@@ -84,6 +87,12 @@ where
             let c = w.comms[0].clone();
             w.comms[0] = LabeledCommitment::new(c.label().clone(), c.commitment().clone(), None);
         }
+        Attack::ShiftIdentity(d) => {
+            let c = w.comms[0].clone();
+            let mut cm = c.commitment().clone();
+            cm.set_identity_shift();
+            w.comms[0] = LabeledCommitment::new(c.label().clone(), cm, Some(d));
+        }
         Attack::ShiftDrop => {
             let c = w.comms[0].clone();
             let mut cm = c.commitment().clone();
@@ -114,10 +123,15 @@ where
 }
 
 pub trait ShiftParts {
+    fn set_identity_shift(&mut self) {}
     fn drop_shift(&mut self);
     fn swap_shift(&mut self, other: &mut Self);
 }
 impl ShiftParts for ark_poly_commit::marlin_pc::Commitment<crate::engine::grp::ToyPairing> {
+    fn set_identity_shift(&mut self) {
+        use ark_poly_commit::PCCommitment;
+        self.shifted_comm = Some(ark_poly_commit::kzg10::Commitment::empty());
+    }
     fn drop_shift(&mut self) {
         self.shifted_comm = None;
     }
